@@ -1161,6 +1161,7 @@ _ACCESSORS = [  # (python name, lean name, kind, result mode)
     ('center_indices', 'accCenterIndices', 'property', 'rat'),
     ('nearest_center_indices', 'accNearestCenterIndices', 'property', 'int'),
     ('affine', 'accAffine', 'property', 'rat'),
+    ('center_position', 'accCenterPosition', 'property', 'rat'),
 ]
 
 
@@ -1170,7 +1171,7 @@ def build_T9n(tree):
     back is emitted as Lean expressions.  `handedness`: the compared expression and which member each outcome returns."""
     import numpy as np
     cls = find_func(tree, '_VolumeBase')
-    names = [a[0] for a in _ACCESSORS] + ['handedness']
+    names = [a[0] for a in _ACCESSORS] + ['handedness', 'map_indices_to_reference']
     fns = {}
     for n in cls.body:
         if isinstance(n, ast.FunctionDef) and n.name in names:
@@ -1195,7 +1196,8 @@ def build_T9n(tree):
     class _H:
         LEFT_HANDED = 'LEFT_HANDED'
         RIGHT_HANDED = 'RIGHT_HANDED'
-    ns = {'np': np, 'AxisHandedness': _H}
+    # `astype(float)` / `dtype=float` inside map_indices_to_reference must not collapse the symbols: in this run `float` is `object`
+    ns = {'np': np, 'AxisHandedness': _H, 'float': object}
     try:
         exec(compile(mod, '<volume.py accessors>', 'exec'), ns)   # noqa: S102  (the current source, on symbols)
     except Exception as e:  # noqa: BLE001
@@ -1445,3 +1447,89 @@ def build_T9o(tree):
 
 
 TARGETS['T9o'] = {'file': 'volume.py', 'build': build_T9o}
+
+
+# ---------------------------------------------------------------------------------------------------------------------
+# get_affine(output_convention): spatial._transform_affine_to_convention run on a symbolic affine for the 48 conventions (T9p)
+def build_T9p(tree):
+    """spatial.py `_transform_affine_to_convention` (with `_transform_affine_matrix`, `_normalize_patient_orientation`,
+    `PATIENT_ORIENTATION_OPPOSITES` of the current source) from the convention L, P, H to each of the 48 conventions, on a
+    symbolic affine: the 12 entries of the result as Lean expressions."""
+    import itertools
+    import numpy as np
+    from collections.abc import Sequence
+    try:
+        from highdicom.enum import PatientOrientationValuesBiped
+    except Exception as e:  # noqa: BLE001
+        raise Unsupported(f'highdicom.enum not importable: {e}')
+    wanted = ['_normalize_patient_orientation', '_transform_affine_matrix', '_transform_affine_to_convention']
+    body = []
+    for node in tree.body:
+        if isinstance(node, ast.FunctionDef) and node.name in wanted:
+            f = ast.parse(ast.unparse(node)).body[0]
+            f.returns = None
+            for arg in f.args.args + f.args.kwonlyargs:
+                arg.annotation = None
+            body.append(f)
+        elif isinstance(node, ast.Assign) and any(ast.unparse(t) == 'PATIENT_ORIENTATION_OPPOSITES' for t in node.targets):
+            body.append(ast.parse(ast.unparse(node)).body[0])
+    found = {n.name for n in body if isinstance(n, ast.FunctionDef)}
+    if found != set(wanted) or len(body) != 4:
+        raise Unsupported(f'spatial.py: expected {wanted} and PATIENT_ORIENTATION_OPPOSITES, found {sorted(found)}')
+    mod = ast.Module(body=body, type_ignores=[])
+    ast.fix_missing_locations(mod)
+    ns = {'np': np, 'Sequence': Sequence, 'PatientOrientationValuesBiped': PatientOrientationValuesBiped}
+    try:
+        exec(compile(mod, '<spatial.py conventions>', 'exec'), ns)   # noqa: S102
+    except Exception as e:  # noqa: BLE001
+        raise Unsupported(f'convention helpers could not be compiled: {type(e).__name__}: {e}')
+    arms = []
+    letters = [('L', 'R'), ('P', 'A'), ('H', 'F')]
+    convs = [''.join(p[s] for p, s in zip(perm, signs)) for perm in itertools.permutations(letters)
+             for signs in itertools.product([0, 1], repeat=3)]
+    P = PatientOrientationValuesBiped
+    for conv in convs:
+        a = np.empty((4, 4), dtype=object)
+        for i in range(3):
+            for j in range(4):
+                a[i, j] = _Sym(('a', i, j))
+        a[3] = [_Sym(('int', 0)), _Sym(('int', 0)), _Sym(('int', 0)), _Sym(('int', 1))]
+        try:
+            out = ns['_transform_affine_to_convention'](a, (2, 3, 5), from_reference_convention=(P.L, P.P, P.H),
+                                                        to_reference_convention=conv)
+        except Unsupported:
+            raise
+        except Exception as e:  # noqa: BLE001
+            raise Unsupported(f'_transform_affine_to_convention(LPH -> {conv}) on symbols: {type(e).__name__}: {e}')
+        out = np.asarray(out, dtype=object)
+        if out.shape != (4, 4):
+            raise Unsupported(f'_transform_affine_to_convention returns shape {out.shape}')
+        items = [_Sym.w(out[i, j]) for i in range(3) for j in range(4)]
+        code = ', '.join(str('LRPAHF'.index(ch)) for ch in conv)
+        arms.append(f'  if (c0, c1, c2) = ({code}) then some   -- {conv}\n    [' + ',\n     '.join(_sym_lean(x.e, 'rat') for x in items) + ']\n  else')
+    # get_affine in volume.py hands over self.affine, the shape and the fixed source convention (checked by T9n's sibling below)
+    text = ('/-- `_transform_affine_to_convention(affine, shape, (L, P, H), conv)` of the current source on a symbolic affine `a i j`: '
+            'the 12 entries of the three upper rows, row-major; the convention is given by the codes of its three letters '
+            '(L R P A H F = 0 .. 5); `none` for a triple that is not one of the 48 conventions -/\n'
+            'def convAffine (c0 c1 c2 : Nat) (a : Nat → Nat → Rat) : Option (List Rat) :=\n' + '\n'.join(arms) + ' none')
+    return text, span_sha(body)
+
+
+def build_T9q(tree):
+    """volume.py `get_affine`: hands `self.affine`, `self.spatial_shape`, the convention (L, P, H) and the requested convention to
+    `_transform_affine_to_convention`; `None` returns the affine itself (textual pin)."""
+    fn = find_func(tree, '_VolumeBase.get_affine')
+    got = [_norm(x) for x in strip_doc(fn.body)]
+    want = ['affine=self.affine',
+            'ifoutput_conventionisnotNone:affine=_transform_affine_to_convention(affine,self.spatial_shape,'
+            'from_reference_convention=(PatientOrientationValuesBiped.L,PatientOrientationValuesBiped.P,PatientOrientationValuesBiped.H),'
+            'to_reference_convention=output_convention)',
+            'returnaffine']
+    if got != want:
+        raise Unsupported(f'get_affine changed: {got}')
+    return ('/-- `get_affine(output_convention)`: (source convention handed to `_transform_affine_to_convention`, what `None` returns) -/\n'
+            'def getAffineForwards : String × String := ("LPH", "self.affine")'), span_sha(fn.body)
+
+
+TARGETS['T9p'] = {'file': 'spatial.py', 'build': build_T9p}
+TARGETS['T9q'] = {'file': 'volume.py', 'build': build_T9q}
